@@ -1,0 +1,5 @@
+//go:build !verif
+
+package download
+
+func verifPicked(height int64, task *taskInfo, ts tasks, firstPass bool) {}
